@@ -369,7 +369,8 @@ impl ForwardedStreamSink {
 
         if Some(state.sent_bytes) == state.body_length {
             assert!(unsent.is_empty());
-            assert_eq!(data.len(), to_send);
+            // the origin may send more than it declared: the excess is handed back and
+            // fails the exchange on the next round, it must not panic
             state.sink.eof()?;
         }
 
